@@ -858,21 +858,42 @@ package query
 //@ func Update
 //@   property C14 C08
 //@   ownwrites E:value.Primary#
+//@   ensures [failed-statement-publishes-nothing] result2 != nil ==> published == old(published)
+//@   ghostset after call (query.ViewMap).Set#*: published = published + 1
+//@   ghostset after call (*query.ReferenceScope).ReplaceTemporaryTable#*: published = published + 1
 //@ func Insert
 //@   property C14 C08
 //@   ownwrites E:value.Primary#
+//@   ensures [failed-statement-publishes-nothing] result2 != nil ==> published == old(published)
+//@   ghostset after call (query.ViewMap).Set#*: published = published + 1
+//@   ghostset after call (*query.ReferenceScope).ReplaceTemporaryTable#*: published = published + 1
 //@ func Replace
 //@   property C14 C08
 //@   ownwrites E:value.Primary#
+//@   ensures [failed-statement-publishes-nothing] result2 != nil ==> published == old(published)
+//@   ghostset after call (query.ViewMap).Set#*: published = published + 1
+//@   ghostset after call (*query.ReferenceScope).ReplaceTemporaryTable#*: published = published + 1
 //@ func Delete
 //@   property C14 C08
 //@   ownwrites E:value.Primary#
+//@   ensures [failed-statement-publishes-nothing] result2 != nil ==> published == old(published)
+//@   ghostset after call (query.ViewMap).Set#*: published = published + 1
+//@   ghostset after call (*query.ReferenceScope).ReplaceTemporaryTable#*: published = published + 1
 //@ func AddColumns
 //@   property C14 C08
 //@   ownwrites E:value.Primary#
+//@   ensures [failed-statement-publishes-nothing] result2 != nil ==> published == old(published)
+//@   ghostset after call (query.ViewMap).Set#*: published = published + 1
+//@   ghostset after call (*query.ReferenceScope).ReplaceTemporaryTable#*: published = published + 1
 //@ func DropColumns
 //@   property C14 C08
 //@   ownwrites E:value.Primary#
+//@   ensures [failed-statement-publishes-nothing] result2 != nil ==> published == old(published)
+//@   ghostset after call (query.ViewMap).Set#*: published = published + 1
+//@   ghostset after call (*query.ReferenceScope).ReplaceTemporaryTable#*: published = published + 1
 //@ func RenameColumn
 //@   property C14 C08
 //@   ownwrites E:value.Primary#
+//@   ensures [failed-statement-publishes-nothing] result1 != nil ==> published == old(published)
+//@   ghostset after call (query.ViewMap).Set#*: published = published + 1
+//@   ghostset after call (*query.ReferenceScope).ReplaceTemporaryTable#*: published = published + 1
